@@ -185,6 +185,58 @@ def conditions(tier):
     return "".join(parts), conds
 
 
+# ----------------------------------------------------------------------------- real simulators at small cutoffs (light explorer)
+def h_real_accept(env, sim):
+    """valid programs on the REAL simulators are never refused: solver-chosen cutoff 1..3, gate, ordered
+    modes, measurement yes/no; every feasible choice is executed with shots=None (all outcome branches)."""
+    import warnings
+    import piquasso as pq
+    import numpy as np
+    from .. import xa as _xa
+    cutoff = env.pick_int("cutoff", 1, 3)
+    gate = env.pick_int("gate", 0, 3)
+    a = env.pick_int("a", 0, 2)
+    b = env.pick_int("b", 0, 2)
+    photons = env.pick_int("photons", 0, 2)
+    measure = env.pick_int("measure", 0, 1)
+    if a == b or photons >= cutoff:
+        if env.mode == "sym":
+            raise _xa.PathAbort("not a valid program")
+        env.num_assumptions.append(("valid", False))
+        return
+    Sim = {"pure": pq.PureFockSimulator, "mixed": pq.FockSimulator, "passive": pq.PassiveSimulator}[sim]
+    g = [pq.Beamsplitter(0.3, 0.2), pq.Phaseshifter(0.4), pq.Interferometer(np.array([[0.6, 0.8], [-0.8, 0.6]], dtype=complex)), pq.Beamsplitter5050()][gate]
+    modes = (a,) if gate == 1 else (a, b)
+    ok = True
+    why = ""
+    with warnings.catch_warnings():
+        warnings.simplefilter("ignore")
+        try:
+            ins = [pq.Vacuum()] if sim != "passive" else [pq.NumberState([0, 0, 0])]
+            if sim == "passive":
+                occ = [0, 0, 0]
+                occ[a] = photons
+                ins = [pq.NumberState(occ)]
+            else:
+                ins += [pq.Create().on_modes(a) for _ in range(photons)]
+            ins.append(g.on_modes(*modes))
+            if measure:
+                ins.append(pq.ParticleNumberMeasurement().on_modes(b))
+                if sim != "mixed":      # the mixed-state simulator supports measurements only at the end
+                    ins.append(pq.Phaseshifter(0.1).on_modes(3 - a - b))      # the mode that is neither a nor b
+            r = Sim(d=3, config=pq.Config(cutoff=cutoff)).execute(pq.Program(instructions=ins), shots=None if sim != "mixed" or True else 1)
+            for br in r.branches:
+                if br.state is not None:
+                    br.state.fock_probabilities
+        except Exception as e:      # any exception on a valid program is a refusal
+            ok = False
+            why = "%s: %s" % (type(e).__name__, str(e)[:80])
+    env.holds("valid program accepted on %s (cutoff=%d gate=%d modes=%s photons=%d measure=%d) %s" % (sim, cutoff, gate, modes, photons, measure, why) if not ok else "valid program accepted", ok)
+
+
+HARNESSES = {"real_accept": h_real_accept}
+
+
 EXPLANATION = (
     "CrossHair executes the real Q / Instruction / Simulator validation and execution pipeline with counting stub steps. For each rule a solver-chosen "
     "single fault (mode values, position of the offending instruction, shots, number of modes of the initial state) must raise a Piquasso exception with "
@@ -194,6 +246,13 @@ EXPLANATION = (
 
 
 def run(rep, tier, seed, opts):
+    inst = [("real_accept", {"sim": s_}) for s_ in ("pure", "mixed", "passive")]
+    if opts.get("only"):
+        inst = [i for i in inst if opts["only"] in i[0] or opts["only"] in str(i[1])]
+    if inst:
+        o = {"timeout_s": 60, "instance_timeout_s": 1500, "seed": seed, "validation_points": 0, "path_budget": 5000, "light_paths": True}
+        for r in core.run_instances(__name__, inst, o, jobs=opts.get("jobs")):
+            rep.add_instance_result(__name__, r)
     wsrc, conds = conditions(tier)
     source = C12.HEADER + EXTRA + "\n\n" + wsrc
     if opts.get("only"):
@@ -205,6 +264,7 @@ def run(rep, tier, seed, opts):
         rep.note_function(f)
     rep.stubs += ["simulation steps -> counting stubs ('no evolution ran' is the assertion steps == 0)"]
     rep.bounds = {"d": 4, "instructions": "3-5", "mode values": "-2..5", "shots": "-3..3 and None",
-                  "outside": "per-instruction _validate of the real gates (shape/range of array parameters), cutoff reduction of post-measurement states on the real Fock simulators (numeric kernels), TF/JAX"}
-    ch.run_conditions(rep, source, conds, timeout_s=60 if tier == "quick" else 240, per_path=20, jobs=opts.get("jobs"))
+                  "real simulators": "pure / mixed / passive, d=3, cutoff 1..3, 4 gate kinds, ordered modes, 0..2 photons, with and without a measurement, shots=None", "outside": "per-instruction _validate of the real gates (shape/range of array parameters), cutoff reduction of post-measurement states on the real Fock simulators (numeric kernels), TF/JAX"}
+    if conds:
+        ch.run_conditions(rep, source, conds, timeout_s=60 if tier == "quick" else 240, per_path=20, jobs=opts.get("jobs"))
     return rep.finish(level="other", explanation=EXPLANATION)
